@@ -2,7 +2,9 @@
 """Regenerate /verif/MANIFEST.json from harness/registry.json (single source of truth)."""
 import json, os, sys
 V = os.path.dirname(os.path.dirname(os.path.abspath(__file__)))
-reg = json.load(open(os.path.join(V, 'harness', 'registry.json')))
+sys.path.insert(0, os.path.join(V, 'lib'))
+import driver
+reg = driver.load_registry()
 props = [json.loads(l) for l in open(os.path.join(V, 'properties.jsonl')) if l.strip()]
 checks, na = [], []
 for p in props:
